@@ -93,6 +93,7 @@ def gen_cases(tier, rng):
         total = n if w != 8 else min(n, 255)
         pos = sorted(rng.sample(range(total), min(k, total))) if total else []
         cases.append("insert w=%d n=%d idx=%s" % (w, total - len(pos), fmt(pos)))
+    cases += gen_mapkeys(tier, rng)
     # de-duplicate, keep order
     seen, out = set(), []
     for c in cases:
@@ -102,9 +103,115 @@ def gen_cases(tier, rng):
     return out
 
 
+def collapse_map(idx, n):
+    m, d = [], 0
+    for i in range(n):
+        if i in idx:
+            m.append(-1)
+        else:
+            m.append(d)
+            d += 1
+    return m
+
+
+def expand_map(idx, n):
+    m, d = [], 0
+    for _ in range(n):
+        while d in idx:
+            d += 1
+        m.append(d)
+        d += 1
+    return m
+
+
+def mk_case(w, cont, keys, im, off):
+    return "mapkeys w=%d c=%s keys=%s vals=%s map=%s off=%d" % (w, cont, fmt(keys), fmt(range(100, 100 + len(keys))), fmt(im), off)
+
+
+MK_TYPES = [(31, "m"), (31, "u"), (16, "m"), (16, "u"), (32, "m"), (32, "u")]
+
+
+def gen_mapkeys(tier, rng):
+    """ApplyIndexMapToMapKeys: w = value bits of the key type (31 = int, 16 = uint16_t, 32 = uint32_t),
+    c = m (std::map) / u (std::unordered_map). Keys are listed in random order (the container decides
+    the iteration order); values are 100, 101, ... so that every entry is recognisable."""
+    cases = []
+    quick = tier == "quick"
+    # exhaustive small scope: every key subset of a small universe x every short index map over
+    # {-1, 0, 1, 3} (deleted / collisions / gaps) x a few offsets, for two container/key types
+    universe = [0, 1, 2, 3, 5]
+    maxlen = 2 if quick else 3
+    maps = [list(m) for ln in range(maxlen + 1) for m in itertools.product([-1, 0, 1, 3], repeat=ln)]
+    for (w, cont) in ([(31, "m"), (16, "u")] if quick else MK_TYPES):
+        for keys in subsets_of(universe):
+            for im in maps:
+                for off in (-1, 0, 2):
+                    cases.append(mk_case(w, cont, keys, im, off))
+    # the intended use: collapse map of a deletion with defaultOffset = -(number deleted), expand map
+    # of an insertion with defaultOffset = +(number inserted); keys inside and beyond the map
+    for _ in range(1200 if quick else 12000):
+        (w, cont) = rng.choice(MK_TYPES)
+        n = rng.randint(0, 24)
+        idx = sorted(rng.sample(range(n), rng.randint(0, min(n, 6)))) if n else []
+        if rng.random() < 0.7:
+            im, off = collapse_map(set(idx), n), -len(idx)
+        else:
+            im, off = expand_map(set(idx), n), len(idx)
+        pool = list(range(0, n + 8))
+        if w == 31 and rng.random() < 0.15:
+            pool += [-1, -2, -5]
+        keys = rng.sample(pool, rng.randint(0, min(len(pool), 12)))
+        cases.append(mk_case(w, cont, keys, im, off))
+    # malformed stream: keys missing from the map, non-injective maps, negative/deleted targets,
+    # empty map, targets that do not fit the key type (wrap), large offsets
+    for _ in range(800 if quick else 8000):
+        (w, cont) = rng.choice(MK_TYPES)
+        n = rng.choice([0, 0, 1, 2, 3, 5, 8])
+        vals = [-1, -2, -2147483648, 0, 1, 2, 3, 4, 7] + ([65535, 65536, 65537, 70000, 2147483647] if rng.random() < 0.3 else [])
+        im = [rng.choice(vals) for _ in range(n)]
+        hi = {31: 2147483647, 16: 65535, 32: 4294967295}[w]
+        pool = list(range(0, n + 6)) + [hi, hi - 1, 40000]
+        if w == 31:
+            pool += [-1, -2, -7, -2147483648]
+        keys = rng.sample(pool, rng.randint(0, min(len(pool), 8)))
+        off = rng.choice([0, 0, -1, 1, -3, 5, -n, -70000, 65536, 65535, -65536])
+        # keep int + int inside the int range here: overflow is undefined behaviour (separate cases below)
+        if w != 32 and any((k < 0 or k >= n) and not (-2147483648 <= k + off <= 2147483647) for k in keys):
+            continue
+        cases.append(mk_case(w, cont, keys, im, off))
+    # undefined behaviour: d.first + defaultOffset overflows a signed int (the model faults, the
+    # sanitizer build must trap). Kept last: each of them ends the oracle process.
+    # (a harmless case in front of each, so that the crashing case is never the first line of a process)
+    cases.append(mk_case(31, "m", [1, 2147483646], [0], 1))
+    cases.append(mk_case(31, "m", [1, 2147483647], [0], 1))
+    cases.append(mk_case(31, "u", [-2147483647, 0], [0], -1))
+    cases.append(mk_case(31, "u", [-2147483648, 0], [0], -1))
+    # uint16_t keys: g++ narrows (uint16_t)(int + int) to 16-bit arithmetic, so the sanitizer does
+    # not see this overflow; the C++ standard still calls it undefined (either outcome is accepted)
+    cases.append(mk_case(16, "m", [65534], [], 1))
+    cases.append(mk_case(16, "m", [65535], [], 2147483647))
+    return cases
+
+
+def subsets_of(univ):
+    for k in range(len(univ) + 1):
+        for c in itertools.combinations(univ, k):
+            yield list(c)
+
+
+def mapkeys_model_case(case, impl_line):
+    """the loop model takes the container's iteration order as an input: for an unordered_map it is
+    whatever the implementation reported (second half of its output line)"""
+    if not case.startswith("mapkeys ") or " c=u " not in case + " " or impl_line is None or "@" not in impl_line:
+        return case
+    return case + " ord=" + impl_line.split("@", 1)[1]
+
+
 def nontrivial(case, out):
     """a case is non-trivial when something is actually removed / moved / produced"""
     op = case.split()[0]
+    if op == "mapkeys":
+        return " keys= " not in case + " " and not out.startswith("I=@")
     if op in ("erase", "insert", "collapse", "expand"):
         return "idx= " not in case + " " and not case.endswith("idx=") and out not in ("", "I=")
     return out not in ("I=", "I=|")
@@ -119,16 +226,33 @@ def evaluate(rep, cases, impl, model):
             continue
         m = dict(p.split("=", 1) for p in ml.split(" ") if "=" in p)
         M, S = m.get("M", "?"), m.get("S", "?")
+        op = c.split()[0]
         if crash is not None:
             # a memory error / hang in the implementation: the case is the witness when it lies inside
-            # the hypotheses of the safety statements (S != '-' or erase/amt/strips which have none)
-            op = c.split()[0]
-            inside = S != "-" or op in ("erase", "amt", "strips")
+            # the hypotheses of the safety statements (S != '-' or erase/amt/strips which have none;
+            # mapkeys: C18_mapkeys_defined says for ALL inputs that the only fault is the signed
+            # overflow of d.first + defaultOffset, which is exactly when the model says FAULT)
+            inside = S != "-" or op in ("erase", "amt", "strips") or (op == "mapkeys" and M != "FAULT")
             if inside:
                 rep.violation("implementation crashed (sanitizer/abort/timeout) on an input inside the theorem's hypotheses",
                               {"case": c, "family": "util", "crash": crash, "model": M, "spec": S})
             continue
         I = il[2:] if il.startswith("I=") else il
+        if op == "mapkeys":
+            I, order = I.split("@", 1) if "@" in I else (I, "")
+            keys = [int(x) for x in dict(p.split("=", 1) for p in c.split()[1:]).get("keys", "").split(",") if x]
+            if " c=m " in c + " " and order != fmt(sorted(keys)):
+                mismatches.append((c, "iteration order of std::map " + order, "ascending keys", S))
+                continue
+            if sorted(int(x) for x in order.split(",") if x) != sorted(keys):
+                mismatches.append((c, "input container holds " + order, "keys " + fmt(sorted(keys)), S))
+                continue
+            if M == "FAULT":
+                # the model says undefined behaviour (signed overflow of int + int). With int keys the
+                # sanitizer build must trap; with uint16_t keys g++ narrows the addition (no trap)
+                if " w=31 " in c + " ":
+                    mismatches.append((c, I, M, S))
+                continue
         if S != "-" and I != S:
             specfails.append((c, I, M, S))
         elif I != M and M not in ("FAULT", "OUTOFFUEL"):
@@ -166,8 +290,19 @@ def run(tier, seed, replay=None):
         except OSError:
             pass
         cases = corpus + gen_cases(tier, rng)
-    impl = vlib.run_cases_robust(impl_bin, ["util"], cases, timeout_per_batch=300)
-    model = vlib.run_cases_robust(model_bin, ["util"], cases, timeout_per_batch=600)
+    # block by block: a tree in which very many cases trap (one oracle restart per trap) is reported
+    # after the first 40 traps instead of after all of them; the cases not run are dropped
+    impl, ncrash = [], 0
+    for k in range(0, len(cases), 500):
+        part = vlib.run_cases_robust(impl_bin, ["util"], cases[k:k + 500], timeout_per_batch=300, batch=500)
+        impl += part
+        ncrash += sum(1 for (_, _, cr) in part if cr is not None)
+        if ncrash > 40:
+            vlib.log("C18: %d crashing cases so far, skipping the remaining %d cases" % (ncrash, len(cases) - len(impl)))
+            break
+    cases = cases[:len(impl)]
+    mcases = [mapkeys_model_case(c, il) for (c, il, _) in impl]
+    model = vlib.run_cases_robust(model_bin, ["util"], mcases, timeout_per_batch=600)
     nm, ns = evaluate(rep, cases, impl, model)
     ops = {}
     nontriv = set()
@@ -178,16 +313,17 @@ def run(tier, seed, replay=None):
     cov.update({
         "evaluations": len(cases),
         "distinct_nontrivial": len(nontriv),
-        "rule": "cases = exhaustive small scopes (all vector lengths <= %d with all sorted index subsets incl. one out-of-range position, all strips over 4 symbols up to length %d) + seeded random (counter-width boundaries 254/255 at w=8, unsorted/duplicate/out-of-range lists for erase); a case is non-trivial when its index list / triangle list is non-empty and the implementation's result is non-empty; distinct = distinct case lines" % (5 if tier == "quick" else 7, 6 if tier == "quick" else 8),
+        "rule": "cases = exhaustive small scopes (all vector lengths <= %d with all sorted index subsets incl. one out-of-range position, all strips over 4 symbols up to length %d) + seeded random (counter-width boundaries 254/255 at w=8, unsorted/duplicate/out-of-range lists for erase); mapkeys: every key subset of {0,1,2,3,5} x every index map of length <= %d over {-1,0,1,3} x offsets {-1,0,2}, random collapse/expand-map uses, a malformed stream (keys missing from the map, non-injective maps, negative targets, empty map, targets that wrap in the key type) and three signed-overflow inputs that must trap; a case is non-trivial when its index list / triangle list / key list is non-empty and the implementation's result is non-empty; distinct = distinct case lines" % (5 if tier == "quick" else 7, 6 if tier == "quick" else 8, 2 if tier == "quick" else 3),
         "samples": cases[:3] + cases[len(cases) // 2:len(cases) // 2 + 3] + cases[-3:],
         "input_distribution": ops,
         "traces_validated_against_impl": len(cases),
         "correspondence_mismatches": nm,
         "spec_failures_on_impl": ns,
         "unproved": ["InsertVectorIndices: the content of the listed positions ('holes') is proved for a copying move (the model copies, so a hole keeps the old v[p] or the fill value); for element types with a destructive move the C++ leaves moved-from values there, which the property does not constrain and the check masks",
-                     "ApplyIndexMapToMapKeys (NifUtil.hpp:132-151; no caller inside the library) is neither modelled nor tested"],
-        "trusted_base": vlib.BASE_TRUSTED + ["modelled, not verified: std::vector (as list with faulting get/set), C integer conversions as explicit wrap"],
+                     "ApplyIndexMapToMapKeys: modelled for key types int / uint16_t / uint32_t and tested with std::map and std::unordered_map of those; other key types (64-bit, narrow signed) are not modelled. The iteration order of an unordered_map is an input of the model (taken from the implementation's run), not something the model predicts; std::map's ascending order is checked on every case. The library itself never calls the function"],
+        "trusted_base": vlib.BASE_TRUSTED + ["modelled, not verified: std::vector (as list with faulting get/set), C integer conversions as explicit wrap, std::map / std::unordered_map as a list of entries with ascending unique keys under insert-or-overwrite (iteration order of an unordered_map taken from the implementation)"],
         "exhaustive": False,
     })
     return rep.finish(cov, ["vector lengths below 2^w (w = value bits of the index type); index lists strictly ascending for the functional statements (documented precondition); erase/apply-map/strips safety needs no precondition",
-                            "insert: every index below |v| + |indices| and |v| + |indices| < 2^w (otherwise the guarded early return, proved for any list); expand: mapSize + |indices| < 2^w and < 2^31 (no counter wrap, entries fit an int)"])
+                            "insert: every index below |v| + |indices| and |v| + |indices| < 2^w (otherwise the guarded early return, proved for any list); expand: mapSize + |indices| < 2^w and < 2^31 (no counter wrap, entries fit an int)",
+                            "map keys: defined behaviour for ALL inputs except signed overflow of key + defaultOffset (C18_mapkeys_defined); equality with the naive definition needs every new key to be a value of the key type (mk_fits); 'no entry lost' needs the renaming to be injective on the surviving keys (mk_injective; proved for collapse map + offset -(number deleted)); otherwise the entry later in iteration order wins (C18_mapkeys_lookup_last, C18_mapkeys_length)"])
